@@ -392,7 +392,7 @@ pub fn check_step(s: &Step, tr: &mut Tracker, viols: &mut Vec<Viol>) -> Decides 
                     if calls.len() != 1 || calls[0].a != e.vtok {
                         out.push(C11, "mutate-closure-calls", format!("mutate(k{}): closure called {} times (on value {:?}), expected once on #{}", k, calls.len(), calls.first().map(|c| c.a), e.vtok));
                     }
-                    let new_size = e.size - e.vheap + vh;
+                    let new_size = e.size.saturating_sub(e.vheap).saturating_add(*vh);
                     x.remove(i);
                     if new_size > max {
                         dec |= C06;
